@@ -97,12 +97,40 @@ class C10(scen.WorldProp):
         return {"k": "world", "scenario": sc, "humans": humans, "seed": rng.getrandbits(32), "faults": 1,
                 "silent": False, "t0": t0, "spawn": "stopped", "again": t1, "stop_at": t_stop}
 
+    def preempted_case(self, rng):
+        """Two touches, with the socket thread pre-empted at some of its log records (a slow log sink): the handler
+        that is running pauses for 15-80 ms between two statements while the main thread carries on.  The timed
+        model treats a handler as atomic, so these sessions are judged by the oracle only: nothing dies, and the
+        second touch is rung."""
+        N = rng.choice([4, 6, 8])
+        w = 0.25
+        row_t = (w + 0.01) * N
+        t0 = 1000.3 + rng.random()
+        t_stand = t0 + 3 + rng.uniform(2, 5) * row_t
+        t1 = t_stand + 3 * row_t + 0.5 + rng.random()
+        end = t1 + 3 + 6 * row_t
+        kind = rng.choice(["stub", "wait", "regression"])
+        rh = scen.stub_rhythm(w) if kind == "stub" else scen.rhythm_cfg(kind, peal_speed=60)
+        events = [call(t0, LOOK_TO), call(t_stand, scen.STAND),
+                  [t1 - 0.3, "msg", {"m": "global_state", "state": [True] * N}], call(t1, LOOK_TO)]
+        sc = {"start": 1000.0, "end": end, "tower_size": N, "events": events,
+              "bot": scen.bot_cfg({"type": "plainhunt", "stage": N, "start_row": None}, up_down_in=True), "rhythm": rh,
+              "preempt": {"nth": sorted(rng.sample(range(1, 60), rng.randint(1, 6))), "d": rng.choice([0.015, 0.03, 0.08])}}
+        return {"k": "world", "scenario": sc, "humans": [], "faults": 1, "silent": True, "t0": t0, "again": t1,
+                "preempted": True, "seed": rng.getrandbits(32)}
+
+    def to_model(self, req):
+        m = super().to_model(req)
+        return None if req.get("preempted") else m
+
     def cases(self, rng, tier):
         n = 300 if tier == "quick" else 3000
         for i in range(n // 10):
             yield self.spawn_case(rng)
         for i in range(n // 15):
             yield self.stopped_case(rng)
+        for i in range(n // 6):
+            yield self.preempted_case(rng)
         for i in range(n):
             N = rng.choice([4, 5, 6, 8, 10])
             humans = sorted(rng.sample(range(1, N + 1), rng.randint(0, N - 1)))
